@@ -4,12 +4,16 @@ Line-protocol driver: one JSON case per line on stdin, one JSON result per line 
 A line that does not parse yields `{"err":"bad-op"}` — never a default.
 -/
 import OsyrisModel
+import Driver.Geom
 open Lean Osyris
 
 def handle (line : String) : Json :=
   match Json.parse line with
   | .error _ => errJson .badOp
   | .ok j =>
+    match handleGeom j with
+    | some r => r
+    | none =>
     match getStr? j "engine" with
     | some "core" =>
       match getArr? j "prog" with
